@@ -21,6 +21,7 @@ THEOREMS = ["EngineModel.Properties.C05." + t for t in [
     "C05_decode_steps_shape_v1_beat", "C05_decode_steps_shape_v1_ovw", "C05_decode_steps_shape_v1_hires",
     "C05_iteration_consumes", "C05_loop_consumes_exact", "C05_decode_reads_faithful", "C05_iteration_reads",
     "C05_decode_reads",
+    "C05_uncompress_replay_eq_unz", "C05_replay_fuel", "C05_fromBlob_safe",
 ]]
 ASSUMPTIONS = [
     "zlib is not modelled: the theorem about the decompression loops is generic in an inflate oracle that honours the "
@@ -217,6 +218,16 @@ def tie(ctx):
     items = gen_inputs(rng, ctx.tier, hist)
     lines = [l for (l, _) in items]
     hout, mout = run_both(lines)
+    # A watchdog expiry that the Model does not predict is re-run alone with a six times longer watchdog before it
+    # counts: on a loaded machine `uncompressed.reserve(2 GiB)` under ASan (shadow poisoning) can take longer than
+    # the 10 s of the bulk run.  A real endless loop still expires (and is then a violation with its input).
+    retry = [i for i, (h, m) in enumerate(zip(hout, mout)) if h == "ub nontermination" and m != h]
+    if 0 < len(retry) <= 16:            # more than a handful is not load
+        res = runner.run_harness([[lines[i]] for i in retry], stateless=True, watchdog=60, jobs=4)
+        for i, (outs, _) in zip(retry, res):
+            hout[i] = outs[0]
+    if retry:
+        hist["watchdog_retry (expired at 10 s in the bulk run, re-run alone at 60 s)"] = len(retry)
     divergences, violations = [], []
     streams, outcomes = {}, {}
     distinct = set()
